@@ -140,6 +140,34 @@ fn positive_cfg(rng: &mut Rng) -> BuildCfg {
             verify: None,
         });
     }
+    // links to files and directories of the same package, sorting before and after what they point
+    // to (the permission bits of a link entry must not end up on its target)
+    if rng.chance(1, 3) && !cfg.files.iter().any(|f| f.dest.contains("/opt/pair")) {
+        let mk = |dest: &str, mode: i32, symlink: Option<&str>, size: usize| FileCfg {
+            dest: dest.into(),
+            content_kind: "text".into(),
+            size,
+            content_seed: 7,
+            mode: Some(mode),
+            source_perm: 0o644,
+            user: None,
+            group: None,
+            flags: vec![],
+            caps: None,
+            symlink: symlink.map(|s| s.to_string()),
+            mtime: 1_500_000_000,
+            verify: None,
+        };
+        let fmode = 0o100000 | [0o600, 0o640, 0o4711, 0o444][rng.usize(4)];
+        let dmode = 0o040000 | [0o700, 0o750, 0o2775][rng.usize(3)];
+        cfg.files.push(mk("/opt/pair/m-target", fmode, None, 33));
+        cfg.files.push(mk("/opt/pair/a-link", 0o120777, Some("m-target"), 0));
+        cfg.files.push(mk("/opt/pair/z-link", 0o120777, Some("m-target"), 0));
+        cfg.files.push(mk("/opt/pair/m-dir", dmode, None, 0));
+        cfg.files.push(mk("/opt/pair/m-dir/inside", 0o100644, None, 5));
+        cfg.files.push(mk("/opt/pair/b-dirlink", 0o120777, Some("m-dir"), 0));
+        cfg.files.push(mk("/opt/pair/y-dirlink", 0o120777, Some("/opt/pair/m-dir"), 0));
+    }
     // explicit entries for directories that contain other entries (their archived mode must win over
     // whatever mode the directory got when it was created for its children)
     let parents: Vec<String> = cfg
@@ -285,6 +313,21 @@ fn hostile_cases(jail_root: &Path, rng: &mut Rng, n_random: usize) -> Vec<Hostil
         for (depth, base) in [(1, "lnk/planted"), (2, "lnk/sub/planted"), (3, "lnk/sub/deeper/planted")] {
             add(&format!("symlink-then-file-deep-below:{lbl}:{depth}"), vec![hfile("/", "lnk", 0o120777, b"", &tgt), hfile("/", base, reg, b"planted deep below a symlink", "")]);
             add(&format!("symlink-then-dir-deep-below:{lbl}:{depth}"), vec![hfile("/opt/", "lnk", 0o120777, b"", &tgt), hfile("/opt/", &format!("{base}-dir"), 0o040700, b"", "")]);
+        }
+    }
+    // entries whose DIRECTORY NAME lies one to three levels below a link to an existing outside
+    // directory (directories created on demand must not be created through the link)
+    for (lbl, tgt) in [("abs", outside.clone()), ("rel", "../../../../../../../outside-dir".to_string()), ("rel-sibling", "../../sibling".to_string())] {
+        for (depth, dir) in [(1, "/a/lnk/"), (2, "/a/lnk/cache/"), (3, "/a/lnk/cache/v1/"), (4, "/a/lnk/sub/deeper/v2/")] {
+            add(&format!("symlink-then-file-in-dirname-below:{lbl}:{depth}"), vec![hfile("/a/", "lnk", 0o120777, b"", &tgt), hfile(dir, "state", reg, b"planted in a directory below a symlink", "")]);
+            add(&format!("symlink-then-dir-in-dirname-below:{lbl}:{depth}"), vec![hfile("/a/", "lnk", 0o120777, b"", &tgt), hfile(dir, "state-dir", 0o040700, b"", "")]);
+        }
+    }
+    // a lone link to something that exists outside, with various permission bits on the link entry
+    // (the bits of a link entry must never be applied to what it points to)
+    for (lbl, tgt) in [("abs-file", format!("{outside}/secret")), ("abs-dir", outside.clone()), ("rel-canary", "../../canary.txt".to_string()), ("rel-dir", "../../sibling".to_string())] {
+        for lmode in [0o120777u16, 0o120000, 0o124755, 0o120600] {
+            add(&format!("symlink-to-existing-outside:{lbl}:{:o}", lmode & 0o7777), vec![hfile("/a/", "lnk", lmode, b"", &tgt), hfile("/a/", "zz-after", reg, b"an ordinary entry after the link", "")]);
         }
     }
     // a symlink entry whose path is the extraction target itself, followed by ordinary entries
